@@ -886,7 +886,9 @@ func c11qRun(flavour string, nfacts int, path []c11event) (vios []c11vio, obs, k
 			"Save returned nil but the writer saved nothing | calls: " + strings.Join(e.calls, " ")})
 	}
 
-	return vios, obs, e.key()
+	// NOTE the model's state is part of the key: on the unchanged tree it is a function of the real objects' state (same
+	// number of states), on a changed tree a state whose model differs is not merged with one reached by another history
+	return vios, obs, e.key() + fmt.Sprintf("|model=%s/%v/%v/%d/%s", m.cur, m.cur != "" && m.hasM, m.cur != "" && m.dead, m.prev, strings.Join(m.saved, ","))
 }
 
 // c11qRunDirect: the same events on one DefaultProposalProcessor of F1a, without
@@ -1488,8 +1490,9 @@ func TestVerifC11(t *testing.T) {
 	r.Rule("part Q: BFS with state dedup over histories of Process+await / Save(new block = computed manifest | another hash) / Cancel for proposals F1a (33,0), F1b (33,1), F2a (34,0) (thorough: + F0a (32,0)), " +
 		"writer / processor answers deviating from ok at <= 2 events per path (real flavour: processing stops with a plain or an ignorable (ErrIgnoreErrorProposalProcessor) error in the operation, at SetStates, at SetProcessResult or at Manifest, i.e. after the writer exists and before a manifest does; writer Save error; stub flavour: process error, ignorable process error, save error, save canceled), replayed on a fresh real ProposalProcessors; " +
 		"flavour direct: the same events on one DefaultProposalProcessor without ProposalProcessors; " +
+		"search realc (real flavour) and flavour direct: Save during which a cancellation lands before or after a writer step of the Save path (SetINITVoteproof, SetACCEPTVoteproof, Save), through the context given to Save (cctx) or through Cancel() of the processor taken from Processor() before Save (cproc); the step then waits for its own context and returns its error, so a cancellation after Save's write leaves the block in the ledger and Save reports the cancellation; stub flavour: the stub writes and returns context.Canceled; every event of the menu follows (same height next round, lower height, next height); " +
 		"state key = kept processor (proposal and its flags), previousSaved, the save log, deviations used: these are all the mutable fields of the objects and of the oracle; " +
-		"part S: every interleaving within the preemption bound of the listed thread programs; non-trivial = an event other than a refused 'nothing processed' / 'already processing' (Q), a scenario with more than one outcome (S)")
+		"part S: every interleaving within the preemption bound of the listed thread programs; K = a thread canceling the context of the Sc saves, KP = a thread calling Cancel() of the processor its holder took after Process returned; in these scenarios the writer steps of the Save path (the stub's Save: before and after its write) are scheduling points and read their context; non-trivial = an event other than a refused 'nothing processed' / 'already processing' (Q), a scenario with more than one outcome (S)")
 	r.Assume("part Q: every proposal carries one operation producing one state (so SetStates, SetProcessResult and Manifest are all reached); part S: proposals carry no operations (util/worker.go is not instrumented); the BlockWriter is a recording stub whose Save call is 'a block is saved'")
 	r.Assume("Save is called as the state handlers call it: the fact hash argument is the ACCEPT majority's proposal, the voteproof's point is the proposal's point")
 
